@@ -18,7 +18,7 @@ RULE = ("BFS over histories of callLater(d in {0,1,2}) with an optional one-step
 BOUNDS = {"quick": "<= 4 live user calls; from empty: depth 5 with <= 1 scripted call and depth 4 with <= 2 scripted calls per "
                    "history; from 4 preset pending calls (times 0..3): depth 4, no scripts",
           "thorough": "<= 4 live user calls; from empty: depth 6 with <= 1 scripted call and depth 5 with <= 2 scripted calls per "
-                      "history; from 4 preset pending calls (times 0..3): depth 5 with <= 1 scripted call"}
+                      "history; from 4 preset pending calls (times 0..3): depth 5, no scripts"}
 ASSUMPTIONS = [
     "integer times: the reference and the Clock compute the same sums exactly",
     "canonical state = pending calls in creation order (time relative to now, script, rescheduled flag) + the "
@@ -40,7 +40,7 @@ LEVEL_NOTE = "bounded: integer times, <= 4 live user calls, one-step scripts, de
 # few postponements (which do not re-sort) followed by a callLater for an existing time and an advance
 # fit in a short history (order-of-insertion bugs that only show on an unsorted list)
 FAMILIES = {"quick": [("empty", 5, 1), ("empty", 4, 2), ("warm4", 4, 0)],
-            "thorough": [("empty", 6, 1), ("empty", 5, 2), ("warm4", 5, 1)]}
+            "thorough": [("empty", 6, 1), ("empty", 5, 2), ("warm4", 5, 0)]}
 CAP = 4
 SCRIPT_IDS = tuple(range(1, 13))
 SPLIT = {"quick": 1, "thorough": 2}
